@@ -342,6 +342,9 @@ func (c c18Case) testSource() string {
 			fmt.Fprintf(b, "\t\t\tif name == %q {\n\t\t\t\tif xf.Type != reflect.TypeOf(%s{}) {\n\t\t\t\t\tt.Errorf(\"VT-FAIL %s.%%s has type %%v, want the replacement %s\", name, xf.Type)\n\t\t\t\t}\n", d.ReplaceField, d.ReplaceWith, gen, d.ReplaceWith)
 			if d.ReplaceTag != "" {
 				fmt.Fprintf(b, "\t\t\t\tif string(xf.Tag) != %q {\n\t\t\t\t\tt.Errorf(\"VT-FAIL %s.%%s has tag %%q, want the replacement tag\", name, xf.Tag)\n\t\t\t\t}\n", d.ReplaceTag, gen)
+			} else {
+				// a replace tag that names a type only leaves the origin's struct tag in place
+				fmt.Fprintf(b, "\t\t\t\tif xf.Tag != of.Tag {\n\t\t\t\t\tt.Errorf(\"VT-FAIL %s.%%s (type replaced, no tag given) has tag %%q, origin has %%q\", name, xf.Tag, of.Tag)\n\t\t\t\t}\n", gen)
 			}
 			b.WriteString("\t\t\t\tcontinue\n\t\t\t}\n")
 		}
@@ -514,13 +517,26 @@ func TestC18(t *testing.T) {
 			"test: reflect over XN vs origin.ON (fields = origin minus omitted, order, reflect type identity, tag), DeepCopyAs of nil is nil, DeepCopyAs of a reflect-filled " +
 			"source equals it on every retained field and is zero on every omitted one. negative sub: 11 declarations that are not structs defined from a named type must " +
 			"make Execute fail without writing a file. non-trivial = an omitted field and (foreign-typed field | tag with dot/colon); distinct by JSON encoding",
-		Assumptions: []string{"embedded origin fields, same-package field types of the declaring package and tags containing a backquote are outside the stated domain"},
+		Assumptions: []string{"embedded origin fields, same-package field types of the declaring package and tags containing a backquote are outside the stated domain",
+			"samepackage sub: an origin declared in the declaring package itself (type view0 User0) with builtin field types; unexported fields are mirrored there (observed and relied on by callers); their values cannot be set by the test, only their presence, type and tag are asserted"},
 	})
 	defer r.Finish()
 	genRec = r
 	ev.Search(r, ev.Sub[c18Case]{
 		Name: "modules", Gen: genC18, Oracle: oracleC18, NonTrivial: c18NonTrivial, Classes: c18Features,
 		Budget: ev.Budget{Quick: 25, Thorough: 300}, MinNonTrivial: 0.2, ShrinkTime: 90 * time.Second,
+	})
+	ev.Search(r, ev.Sub[c18Same]{
+		Name: "samepackage", Gen: genC18Same, Oracle: oracleC18Same,
+		NonTrivial: func(c c18Same) bool {
+			for _, f := range c.Fields {
+				if f.Name[0] == 'f' {
+					return true
+				}
+			}
+			return len(c.Omit) > 0
+		},
+		Budget: ev.Budget{Quick: 12, Thorough: 120}, MinNonTrivial: 0.2, ShrinkTime: 60 * time.Second,
 	})
 	if r.Shard == 0 || r.Replaying() {
 		ev.Enumerate(r, "negative", func(yield func(c18Neg) bool) {
@@ -532,4 +548,93 @@ func TestC18(t *testing.T) {
 		}, oracleC18Neg, nil, nil)
 	}
 	_ = json.Marshal
+}
+
+// ---- origins declared in the declaring package itself (`type view0 User0`): unexported fields are mirrored too ----
+
+type c18Same struct {
+	Fields []psField `json:"fields"` // names F<n> (exported) or f<n> (unexported), builtin types
+	Omit   []string  `json:"omit,omitempty"`
+}
+
+var psBuiltinTypes = []string{"int", "string", "bool", "[]string", "map[string]int", "*int", "[]byte", "float64", "[2]int", "error", "any"}
+
+func genC18Same(t *rapid.T) c18Same {
+	var c c18Same
+	n := rapid.IntRange(1, 6).Draw(t, "nfields")
+	for i := 0; i < n; i++ {
+		name := fmt.Sprintf("F%d", i)
+		if rapid.IntRange(0, 2).Draw(t, "unexported") == 0 {
+			name = fmt.Sprintf("f%d", i)
+		}
+		f := psField{Name: name, Type: rapid.SampledFrom(psBuiltinTypes).Draw(t, "ftype"), Tag: rapid.SampledFrom(psTags).Draw(t, "tag")}
+		c.Fields = append(c.Fields, f)
+		if rapid.IntRange(0, 3).Draw(t, "omit") == 0 && len(c.Omit) < 3 {
+			c.Omit = append(c.Omit, name)
+		}
+	}
+	return c
+}
+
+func oracleC18Same(c c18Same) error {
+	src := &strings.Builder{}
+	src.WriteString("package decl\n\ntype User0 struct {\n")
+	for _, f := range c.Fields {
+		if f.Tag != "" {
+			fmt.Fprintf(src, "\t%s %s `%s`\n", f.Name, f.Type, f.Tag)
+		} else {
+			fmt.Fprintf(src, "\t%s %s\n", f.Name, f.Type)
+		}
+	}
+	src.WriteString("}\n\n// +gengo:partialstruct\n")
+	omitted := map[string]bool{}
+	for _, o := range c.Omit {
+		fmt.Fprintf(src, "// +gengo:partialstruct:omit=%s\n", o)
+		omitted[o] = true
+	}
+	src.WriteString("type view0 User0\n")
+	var want []string
+	for _, f := range c.Fields {
+		if !omitted[f.Name] {
+			want = append(want, f.Name)
+		}
+	}
+	ts := &strings.Builder{}
+	ts.WriteString("package decl\n\nimport (\n\t\"fmt\"\n\t\"reflect\"\n\t\"testing\"\n)\n\nvar _ = fmt.Sprint\n")
+	helpers := strings.Replace(psTestHelpers, "func fill(v reflect.Value) {\n\tcounter++\n", "func fill(v reflect.Value) {\n\tcounter++\n\tif !v.CanSet() {\n\t\treturn // unexported field\n\t}\n", 1)
+	helpers = strings.Replace(helpers, "\t\tcase v.Type() == reflect.TypeOf((*third.Iface)(nil)).Elem():\n\t\t\tv.Set(reflect.ValueOf(third.Impl{N: counter}))\n", "", 1)
+	if strings.Contains(helpers, "third.") {
+		panic("harness: the test helpers still mention package third")
+	}
+	ts.WriteString(helpers)
+	ts.WriteString("\nfunc TestSamePackage(t *testing.T) {\n")
+	ts.WriteString("\txt, ot := reflect.TypeOf(View0{}), reflect.TypeOf(User0{})\n")
+	fmt.Fprintf(ts, "\twant := %#v\n", want)
+	ts.WriteString("\tif xt.NumField() != len(want) {\n\t\tvar got []string\n\t\tfor i := 0; i < xt.NumField(); i++ {\n\t\t\tgot = append(got, xt.Field(i).Name)\n\t\t}\n\t\tt.Fatalf(\"VT-FAIL View0 has the fields %v, want %v (the origin's fields that are not omitted, unexported ones included)\", got, want)\n\t}\n")
+	ts.WriteString("\tfor i, name := range want {\n\t\txf := xt.Field(i)\n\t\tof, _ := ot.FieldByName(name)\n\t\tif xf.Name != name || xf.Type != of.Type || xf.Tag != of.Tag {\n\t\t\tt.Errorf(\"VT-FAIL View0 field %d is %s %v %q, origin has %s %v %q\", i, xf.Name, xf.Type, xf.Tag, name, of.Type, of.Tag)\n\t\t}\n\t}\n")
+	ts.WriteString("\tif (*View0)(nil).DeepCopyAs() != nil {\n\t\tt.Errorf(\"VT-FAIL DeepCopyAs of a nil *View0 is not nil\")\n\t}\n")
+	ts.WriteString("\tsrc := &View0{}\n\tfill(reflect.ValueOf(src).Elem())\n\tout := src.DeepCopyAs()\n\tif out == nil {\n\t\tt.Fatalf(\"VT-FAIL DeepCopyAs of a filled View0 is nil\")\n\t}\n")
+	ts.WriteString("\tsv, ov := reflect.ValueOf(src).Elem(), reflect.ValueOf(out).Elem()\n\tfor i := 0; i < ot.NumField(); i++ {\n\t\tname := ot.Field(i).Name\n\t\tif !ot.Field(i).IsExported() {\n\t\t\tcontinue\n\t\t}\n\t\tretained := false\n\t\tfor _, w := range want {\n\t\t\tretained = retained || w == name\n\t\t}\n")
+	ts.WriteString("\t\tif !retained {\n\t\t\tif !ov.Field(i).IsZero() {\n\t\t\t\tt.Errorf(\"VT-FAIL omitted field %s of the copy is not zero\", name)\n\t\t\t}\n\t\t\tcontinue\n\t\t}\n\t\tif !reflect.DeepEqual(sv.FieldByName(name).Interface(), ov.Field(i).Interface()) {\n\t\t\tt.Errorf(\"VT-FAIL retained field %s of the copy is %#v, source has %#v\", name, ov.Field(i).Interface(), sv.FieldByName(name).Interface())\n\t\t}\n\t}\n}\n")
+	m := modspec.Mod{Path: "m", Go: "1.21", Pkgs: []modspec.Pkg{
+		{Dir: "decl", Name: "decl", Other: []modspec.File{{Name: "decl.go", Data: src.String()}, {Name: "same_test.go", Data: ts.String()}}},
+	}}
+	dir := tempModule(&m)
+	defer os.RemoveAll(dir)
+	describe := func() string {
+		gen, _ := os.ReadFile(filepath.Join(dir, "decl", "zz_generated.partialstruct.go"))
+		return fmt.Sprintf("--- decl ---\n%s\n--- generated ---\n%s", clip(src.String(), 1500), clip(string(gen), 3000))
+	}
+	res := mustRun(dir, []string{"./decl"}, []string{"partialstruct"}, nil)
+	if res.Panic != "" {
+		return fmt.Errorf("the partialstruct generator panics: %s\n%s", clip(res.Panic, 600), describe())
+	}
+	if res.Failed {
+		return fmt.Errorf("Execute with the partialstruct generator fails: %s\n%s", clip(res.Err, 1000), describe())
+	}
+	failed, _ := goTest(dir)
+	if out, ok := failed["m/decl"]; ok {
+		return fmt.Errorf("the partial struct of an origin of the same package does not compile or does not mirror it:\n%s\n%s", clip(out, 2500), describe())
+	}
+	return nil
 }
